@@ -5,7 +5,7 @@
   loop reads the written slots `deque[..count]` in STORAGE order, which is a permutation of
   the chronological window; the sum of deviations is permutation-invariant.
 -/
-import TaRs.Lemmas.MeanAbsoluteDeviation
+import TaRs.Lemmas.Core.MeanAbsoluteDeviation
 import TaRs.Lemmas.Ring
 import TaRs.Lemmas.XLemmas
 import TaRs.Lemmas.Machine
